@@ -35,13 +35,15 @@ def register(reg):
                                     # channelisation within the magnitudes of real instruments (needed by the error bound)
                                     "self._header.foff <= -0.001 and self._header.foff >= -1000",
                                     "self._header.fch1 >= 1 and self._header.fch1 <= 100000", "kch <= 100000",
-                                    "ncsel >= 1 and k + ncsel <= self._header.nchans"],
+                                    # a channel range that leaves the band is NOT excluded: it must be refused (raises)
+                                    "ncsel >= 1 and k <= self._header.nchans"],
                  case_requires={("fch1", "freq"): ["kch >= 1", "fch1 == fl(self._header.fch1 + fl(kch * self._header.foff))"]},
                  modifies=["self._file.ifile_cur", "self._file.file_obj"],
-                 # requesting a first-channel frequency below the top without a channel count is not a valid request
-                 skip_cases=["self._file.bitsinfo.nbits=8,fch1=freq,nchans=None", "self._file.bitsinfo.nbits=32,fch1=freq,nchans=None"],
                  after_assign={"chan_start": [("nearest channel", "chan_start == k")]},
-                 raises=[Raises("ValueError", when="start < 0 or start + nsamps > self._header.nsamples")],
+                 # out-of-range requests - in time or in frequency - raise; every other request is served (C02, C08: the
+                 # header of the block always describes the rows that are returned)
+                 raises=[Raises("ValueError", when="start < 0 or start + nsamps > self._header.nsamples or "
+                                                   "k + ncsel > self._header.nchans")],
                  ret=Opaque())
     c.ensure("shape", "result.data.shape[0] == ncsel and result.data.shape[1] == nsamps")
     c.ensure("samples", "forall(c, 0, ncsel, forall(t, 0, nsamps, result.data[c, t] == "
